@@ -137,6 +137,29 @@ def run(ck):
                 ck.violation("decode", "roundtrip" if not oo.startswith("ok ") else "dec-mismatch", dec_lines[j], mo, oo, signature={"type": tn})
         except Exception as e:  # unparsable output
             ck.violation("decode", "unparsable", dec_lines[j], mo, oo, detail=repr(e))
+    # collections beyond 2^16 entries (the model's duplicate-key test is quadratic, so these go through the implementation only: what was encoded must come back whole)
+    big = []
+    for nn in (65535, 65536, 65537, 70001):
+        big.append(("dict(str,u8)", [("k%d" % i, i % 256) for i in range(nn)]))
+        big.append(("bdict(i64,u64)", [(i * 3 - 5, i) for i in range(nn)]))
+        big.append(("seq(u8)", [i % 256 for i in range(nn)]))
+        big.append(("seq(str)", ["" if i % 2 else "x" for i in range(nn)]))
+    big_t = [parse_ty(tn) for tn, _ in big]
+    big_lines = ["enc %s %s" % (tn, " ".join(to_toks(t, order_btree(t, v)))) for (tn, v), t in zip(big, big_t)]
+    ob = core.run_impl("codec", big_lines, chunk=2, timeout=300)
+    dl2 = ["dec %s %s" % (tn, x[3:] if x.startswith("ok ") else "00") for (tn, _), x in zip(big, ob)]
+    od2 = [x.rsplit(" ~", 1)[0] for x in core.run_impl("codec", dl2, chunk=2, timeout=300)]
+    ck.stream("large-collections", description="dictionaries (hash and ordered), sequences of bytes and of strings with 65535, 65536, 65537 and 70001 entries through the real Encoder and Decoder: the value comes back whole, nothing is left")
+    for (tn, v), t, el, eo, do in zip(big, big_t, big_lines, ob, od2):
+        ck.count("large-collections", el[:80] + " ... %d entries" % len(v), kind=tn)
+        try:
+            if not eo.startswith("ok ") or not do.startswith("ok "):
+                raise ValueError("not ok")
+            ot, orr = do[3:].rsplit(" | ", 1)
+            if canon_of_toks(t, ot.split()) != canon_of_val(t, order_btree(t, v)) or int(orr) != 0:
+                raise ValueError("differs")
+        except Exception as e:
+            ck.violation("large-collections", "roundtrip", "%s with %d entries" % (tn, len(v)), "%d entries back, 0 bytes left" % len(v), (do[:60] + " ... " + do[-60:]) if len(do) > 130 else do, signature={"type": tn, "entries": len(v)})
     ck.samples.append({"stream": "encode", "case": lines[len(lines) // 2], "model": m[len(lines) // 2], "impl": o[len(lines) // 2]})
     ck.samples.append({"stream": "encode", "case": lines[-1], "model": m[-1], "impl": o[-1]})
     if dec_lines:
